@@ -3,6 +3,7 @@ package main
 import (
 	"bytes"
 	"fmt"
+	"strings"
 	"sync"
 
 	"verif/vk"
@@ -88,6 +89,7 @@ const (
 	keySetSorted  = "set-op:not-sorted-by-address-or-duplicate"
 	keyTotalStale = "TotalVotingPower:stale-cache-after-set-change"
 	keyHashFresh  = "Hash:differs-from-fresh-set-with-same-content"
+	keyPropCache  = "set-op:cached-proposer-stale-or-wrong"
 	keyGetProp    = "GetProposer:not-highest-priority/cached-proposer"
 	keyCopyAlias2 = "Copy:aliasing:operation-on-copy-changes-original"
 	keyCopyDiff   = "Copy:copy-differs-from-original"
@@ -213,13 +215,23 @@ func (in *sinst) check() (string, string) {
 		return keySetSorted, "validators are not strictly sorted by address: " + snapSet(s)
 	}
 	if got := snapSet(s); got != in.m.String() {
-		if in.reloaded {
-			return keyReloadDiff, fmt.Sprintf("real %s, reference %s", got, in.m.String())
+		what := fmt.Sprintf("real %s, reference %s", got, in.m.String())
+		gi, wi := strings.LastIndex(got, "|P="), strings.LastIndex(in.m.String(), "|P=")
+		switch {
+		case got[:gi] == in.m.String()[:wi]:
+			return keyPropCache, what // same validators and priorities, only the cached proposer differs
+		case in.reloaded:
+			return keyReloadDiff, what
 		}
-		return keySetContent, fmt.Sprintf("real %s, reference %s", got, in.m.String())
+		return keySetContent, what
 	}
 	if got, want := s.TotalVotingPower(), in.m.total(); got != want {
-		return keyTotalStale, fmt.Sprintf("TotalVotingPower()=%d, saturating sum of %s is %d", got, in.m.content(), want)
+		what := fmt.Sprintf("TotalVotingPower()=%d, saturating sum of %s is %d", got, in.m.content(), want)
+		// a freshly built set with the same content gets it right => the cached value is stale
+		if len(in.m.v) > 0 && types.NewValidatorSet(in.m.vals()).TotalVotingPower() == want {
+			return keyTotalStale, what
+		}
+		return keyTotal, what
 	}
 	h := s.Hash()
 	if len(in.m.v) == 0 {
@@ -242,6 +254,11 @@ func (in *sinst) check() (string, string) {
 	// path independence from THIS state (states with priorities reset by Add/Update are not reachable by
 	// rotation alone): 2 and 3 at once against single steps, on copies
 	if len(in.m.v) > 0 {
+		probe := s.Copy()
+		probe.IncrementAccum(1)
+		if got := snapSet(s); got != in.m.String() {
+			return keyCopyAlias2, fmt.Sprintf("IncrementAccum(1) on a Copy() changed the set itself: %s -> %s", in.m.String(), got)
+		}
 		one := func(parts ...int) rstate {
 			c := s.Copy()
 			for _, p := range parts {
